@@ -30,7 +30,7 @@ fn free_port() -> u16 {
     l.local_addr().unwrap().port()
 }
 
-fn run_mode(mode: &str, conns: &[(bool, Vec<String>)], keep: &[bool], kinds: &[char], threads: usize) -> String {
+fn run_mode(mode: &str, conns: &[(bool, Vec<String>)], keep: &[bool], kinds: &[char], threads: usize, max_head: usize) -> String {
     let port = free_port();
     let log: Arc<Mutex<HookLog>> = Arc::new(Mutex::new(HookLog::default()));
     let stop = Arc::new(AtomicBool::new(false));
@@ -39,6 +39,7 @@ fn run_mode(mode: &str, conns: &[(bool, Vec<String>)], keep: &[bool], kinds: &[c
     let accepted = Arc::new(AtomicUsize::new(0));
     let mut b = Server::builder(("127.0.0.1", port)).unwrap();
     b.thread_count(threads);
+    if max_head > 0 { b.max_request_head_size(max_head); }
     b.fallback_route(app);
     {
         let (log, stop, decisions, accepted) = (log.clone(), stop.clone(), decisions.clone(), accepted.clone());
@@ -188,14 +189,24 @@ fn run_mode(mode: &str, conns: &[(bool, Vec<String>)], keep: &[bool], kinds: &[c
 pub fn run(case: &str) -> String {
     crate::util::note_current(case);
     // P = proceed, X = setup hook drops it, K = proceed and the client keeps it open across StopAccepting
-    let (threads, case) = match case.strip_prefix('T').and_then(|r| r.split_once('!')) { Some((n, rest)) => (n.parse().unwrap(), rest), None => (4usize, case) };
+    // optional prefixes `T<n>!` (thread_count) and `N<n>!` (max_request_head_size)
+    let (mut threads, mut max_head, mut case) = (4usize, 0usize, case);
+    loop {
+        let b = case.as_bytes();
+        if b.len() > 2 && (b[0] == b'T' || b[0] == b'N') && b[1].is_ascii_digit() {
+            if let Some((n, rest)) = case[1..].split_once('!') {
+                if let Ok(v) = n.parse::<usize>() { if b[0] == b'T' { threads = v } else { max_head = v } case = rest; continue; }
+            }
+        }
+        break;
+    }
     let keep: Vec<bool> = case.split('/').map(|c| c.starts_with("K:")).collect();
     let kinds: Vec<char> = case.split('/').map(|c| c.chars().next().unwrap()).collect();
     let conns: Vec<(bool, Vec<String>)> = case.split('/').map(|c| {
         let (d, steps) = c.split_once(':').unwrap();
         (d != "X", steps.split(';').filter(|x| !x.is_empty()).map(|x| x.to_string()).collect())
     }).collect();
-    ["pool", "threaded", "epoll"].iter().map(|m| run_mode(m, &conns, &keep, &kinds, threads)).collect::<Vec<_>>().join(" ## ")
+    ["pool", "threaded", "epoll"].iter().map(|m| run_mode(m, &conns, &keep, &kinds, threads, max_head)).collect::<Vec<_>>().join(" ## ")
 }
 
 pub fn gen(ctx: &Ctx) {
@@ -312,6 +323,39 @@ pub fn gen09(ctx: &Ctx) {
             let case = format!("{}:{}", if rng.chance(1, 4) { "C" } else { "P" }, steps.join(";"));
             let res = run(&case);
             out.emit(&case, &res, &format!("first={path}"), true);
+        }
+    }
+    out.finish();
+}
+
+
+/// stream `modes10` (C10 in every serve mode): one connection; a head of length around the limit N, delivered in two or
+/// three segments with a pause between them, then a probe
+pub fn gen10(ctx: &Ctx) {
+    use crate::s_connexp::{cut, Req};
+    let mut rng = Rng::new(ctx.seed, "modes10");
+    let mut out = Out::new(&ctx.dir, "modes10");
+    out.rule = "one connection against serve, serve_threaded and serve_epoll with max_request_head_size N in {64, 128, 1000}: a head of N-2, N, N+1 or N+40 bytes \
+                (padded header) delivered in two or several segments with pauses, or in one; then a probe request. non-trivial = all".into();
+    let reps = if ctx.thorough { 6 } else { 1 };
+    for _ in 0..reps {
+        for n in [64usize, 128, 1000] {
+            for l in [n - 2, n, n + 1, n + 40] {
+                let mut r = Req { method: "GET", path: "/none".into(), fields: vec![], body: vec![] };
+                let base = r.head().len();
+                r.fields.insert(0, ("x".into(), vec![b'p'; l - base - 5]));
+                for style in [0u64, 1, 1, 3] {
+                    if style == 3 && l > 200 { continue; }
+                    let mut steps: Vec<String> = cut(&mut rng, &r.head(), style).iter().map(|s| format!("D{}", hex(s))).collect();
+                    steps.push("R".into());
+                    let probe = Req { method: "GET", path: "/none?probe".into(), fields: vec![], body: vec![] };
+                    steps.push(format!("D{}", hex(&probe.head())));
+                    steps.push("R".into());
+                    let case = format!("N{n}!P:{}", steps.join(";"));
+                    let res = run(&case);
+                    out.emit(&case, &res, &format!("N={n}/len-N={}", l as i64 - n as i64), true);
+                }
+            }
         }
     }
     out.finish();
